@@ -354,6 +354,59 @@ macro_rules! zst_types {
 }
 zst_types!(Z1 / Y1 / N1 = 1, Z2 / Y2 / N2 = 2, Z4 / Y4 / N4 = 4, Z8 / Y8 / N8 = 8, Z16 / Y16 / N16 = 16, Z32 / Y32 / N32 = 32, Z64 / Y64 / N64 = 64);
 
+/// The cache as a heap value (the field of a struct behind a `Gc`), so that NEEDS_TRACE decides whether the
+/// collector ever looks at it.
+#[derive(Collect)]
+#[collect(no_drop)]
+struct CacheBox<'gc, const MAX: usize> {
+    cache: ZstCache<'gc, MAX>,
+}
+#[derive(Collect)]
+#[collect(no_drop)]
+struct ZRoot<'gc, const MAX: usize> {
+    boxed: Option<Gc<'gc, CacheBox<'gc, MAX>>>,
+    handed: Option<Gc<'gc, ()>>,
+}
+
+/// Collector identity of the cache's shared allocation: kept alive by the cache, kept alive by a pointer the
+/// cache handed out (iff it was the shared one), released once neither exists.
+fn zst_liveness<T: Marker + 'static, const MAX: usize>(make: impl Fn() -> T) -> (bool, bool, bool, bool)
+where
+    gc_arena::zst_cache::Alignment<MAX>: gc_arena::zst_cache::ValidAlignment,
+{
+    ALLOC.reset();
+    let alive = || ALLOC.block_by_tag(2).map(|b| !b.released).unwrap_or(false);
+    let mut arena = Arena::<Rootable![ZRoot<'_, MAX>]>::new(|_| ZRoot { boxed: None, handed: None });
+    arena.mutate_root(|mc, root| {
+        ALLOC.arm(2);
+        let cache = ZstCache::<MAX>::new(mc);
+        ALLOC.disarm();
+        root.boxed = Some(Gc::new(mc, CacheBox { cache }));
+    });
+    arena.finish_cycle();
+    arena.finish_cycle();
+    let kept_by_cache = alive();
+    let mut handed_is_shared = false;
+    arena.mutate_root(|mc, root| {
+        let cache = root.boxed.unwrap().cache;
+        let z = cache.alloc_static(mc, make());
+        handed_is_shared = Gc::ptr_eq(Gc::erase(z), cache.cached_ptr());
+        root.handed = Some(Gc::erase(z));
+        root.boxed = None;
+    });
+    arena.finish_cycle();
+    arena.finish_cycle();
+    let kept_by_handed = alive();
+    arena.mutate_root(|_, root| root.handed = None);
+    arena.finish_cycle();
+    arena.finish_cycle();
+    let rel: Vec<_> = ALLOC.drain_releases().into_iter().filter(|r| r.tag == 2).collect();
+    let released_once = rel.len() == 1 && rel.iter().all(|r| r.req == r.rel && !r.double);
+    drop(arena);
+    ALLOC.reset();
+    (kept_by_cache, handed_is_shared, kept_by_handed, released_once)
+}
+
 fn zst_one<T: Marker + 'static, U: Marker + 'static, const MAX: usize>(make: impl Fn() -> T, make_b: impl Fn() -> U, align: usize) -> Value
 where
     gc_arena::zst_cache::Alignment<MAX>: gc_arena::zst_cache::ValidAlignment,
@@ -380,6 +433,11 @@ where
             "cache_ptr_aligned": Gc::as_ptr(cache.cached_ptr()) as usize % MAX == 0,
         });
     });
+    let (kept_by_cache, handed_is_shared, kept_by_handed, released_once) = zst_liveness::<T, MAX>(&make);
+    out["kept_by_cache"] = json!(kept_by_cache);
+    out["handed_is_shared"] = json!(handed_is_shared);
+    out["kept_by_handed"] = json!(kept_by_handed);
+    out["shared_released_once"] = json!(released_once);
     out
 }
 
